@@ -90,9 +90,11 @@ func (d *deepCopier) deepCopyIface(in, out reflect.Value) {
 	inElem := in.Elem()
 	switch inElem.Kind() {
 	case reflect.Ptr:
-		newVal := reflect.New(inElem.Type().Elem())
+		// go through deepCopyPtr so pointers we've already seen (cycles and
+		// shared pointees) map to the same copy.
+		newVal := reflect.New(inElem.Type()).Elem()
+		d.deepCopyPtr(inElem, newVal)
 		out.Set(newVal)
-		d.deepCopy(inElem.Elem(), newVal.Elem())
 		return
 	case reflect.Struct:
 		newVal := reflect.New(inElem.Type())
@@ -103,8 +105,11 @@ func (d *deepCopier) deepCopyIface(in, out reflect.Value) {
 		if inElem.IsNil() {
 			return
 		}
-		out.Set(reflect.MakeMapWithSize(inElem.Type(), inElem.Len()))
-		d.deepCopy(inElem, out.Elem())
+		// go through deepCopyMap so maps we've already seen (cycles and
+		// shared maps) map to the same copy.
+		newMap := reflect.New(inElem.Type()).Elem()
+		d.deepCopyMap(inElem, newMap)
+		out.Set(newMap)
 		return
 	case reflect.Slice:
 		if inElem.IsNil() {
